@@ -213,6 +213,8 @@ def _eval_sim(sc, lb):
         for r in lb.log:
             if r["market"] != spec["id"] or r["strategy"] != "ALL":
                 continue
+            if r.get("cleared_flags_aliased"):
+                raise Violation("cleared-flags-aliased", ("simulation",), "market %s: orders_cleared and market_cleared are one list object at %s" % (spec["id"], r["cb"]), sc)
             if r["cb"] == "check_market_book" and last_closed and state_at_close:
                 # middleware state is released at removal: a re-opened market starts from fresh matching state
                 kept = [x for x in r.get("sim_state", []) if any(x is y for y in state_at_close)]
@@ -428,6 +430,8 @@ def check_live(c):
                     seen_open[mi] = True
                     if was_closed:
                         classes.add("re-opened")
+                        if market.orders_cleared is market.market_cleared:
+                            raise Violation("cleared-flags-aliased", ("live",), "after the re-open orders_cleared and market_cleared are one list object: recording a client in one records it in the other", c)
                         if market.closed or market.orders_cleared or market.market_cleared:
                             raise Violation("not-reopened", ("live",), "data after close: closed=%s flags %s/%s" % (market.closed, market.orders_cleared, market.market_cleared), c)
                 ever_known.add(spec["id"])
